@@ -47,6 +47,9 @@ import (
 // period change at which to prepare the relevant jobs.
 var syncCommitteePreparationEpochs = uint64(5)
 
+// dutiesMutexes is the number of mutexes that guard the scheduling of duties; epoch e uses mutex e % dutiesMutexes.
+const dutiesMutexes = 4
+
 // Service is the co-ordination system for vouch.
 // It runs purely against clock events, setting up jobs for the validator's processes of block proposal, attestation
 // creation and attestation aggregation.
@@ -112,13 +115,13 @@ type Service struct {
 	lastProposalSlotSet   bool
 	lastProposalSlotMutex sync.Mutex
 
-	// proposerDutiesMutex ensures that obtaining and scheduling proposer duties
-	// is not interleaved with a refresh of those duties.
-	proposerDutiesMutex sync.Mutex
+	// proposerDutiesMutexes ensure that obtaining and scheduling the proposer duties of an epoch
+	// is not interleaved with a refresh of those duties.  Epochs share a small number of mutexes,
+	// so that a slow request for one epoch does not hold up the duties of its neighbours.
+	proposerDutiesMutexes [dutiesMutexes]sync.Mutex
 
-	// attesterDutiesMutex ensures that obtaining and scheduling attester duties
-	// is not interleaved with a refresh of those duties.
-	attesterDutiesMutex sync.Mutex
+	// attesterDutiesMutexes do the same for attester duties.
+	attesterDutiesMutexes [dutiesMutexes]sync.Mutex
 
 	// Tracking for attestation jobs that have been started.
 	lastAttestationSlot    phase0.Slot
